@@ -25,6 +25,7 @@ Not decided: that core's str/char helpers behave as documented."""
 from .. import sym, panics, conc, geom
 from ..conc import Stuck
 from .common import loc
+from .c06 import natom
 
 T = "cozy_chess_types::"
 ENUMS = {"Square": 64, "File": 8, "Rank": 8, "Piece": 6, "Color": 2}
@@ -173,6 +174,8 @@ def run(ctx):
             e = c[0]
             if e[0] == "bin" and e[1] in ("Lt", "Ge", "Le", "Gt") and e[3][0] == "int":
                 sums.setdefault(e[2], []).append((e[1], e[3][1], c[1]))
+            elif e[0] == "bin" and e[1] in ("Lt", "Ge", "Le", "Gt") and e[2][0] == "int":
+                sums.setdefault(e[3], []).append((e[1], e[2][1], c[1]))
         good = 0
         bad = []
         for se_, guards in sums.items():
@@ -195,13 +198,12 @@ def run(ctx):
                         break
                 if bad:
                     break
-            # the guards on the Some path: value in 0..=7
-            lo = max([k + (0 if op == "Ge" else 1) for op, k, v in guards if (op in ("Ge", "Gt") and v == 1)] +
-                     [k + (1 if op == "Le" else 0) for op, k, v in guards if (op in ("Lt", "Le") and v == 0)] + [-10 ** 9])
-            hi = min([k - (1 if op == "Lt" else 0) for op, k, v in guards if (op in ("Lt", "Le") and v == 1)] +
-                     [k - (0 if op == "Gt" else 1) for op, k, v in guards if (op in ("Ge", "Gt") and v == 0)] + [10 ** 9])
-            if (lo, hi) != (0, 7):
-                bad.append(("guard range", lo, hi))
+            # the guards on the Some path: the interval the path's decisions leave for the sum must be 0..=7
+            from ..ranges import Ranger
+            rgr = Ranger(f, {})
+            bd = rgr.bounds(se_, sp.conds)
+            if bd != (0, 7):
+                bad.append(("guard range", bd))
             else:
                 good += 1
         ctx.check(good == 2 and not bad, "try_offset:sums+guards",
@@ -225,7 +227,8 @@ def run(ctx):
         # None paths: each decided by one guard failing
         for p in none:
             last = p.conds[-1]
-            ctx.check(last[0][0] == "bin" and last[0] in [g for g in sums for _ in (0,)] or last[0][2] in sums, "try_offset:none-by-guard",
+            ok_last = last[0][0] == "bin" and (last[0][2] in sums or last[0][3] in sums)
+            ctx.check(ok_last, "try_offset:none-by-guard",
                       "a None path of try_offset is not decided by a range guard on a coordinate sum", loc(b))
     # ---- try_index tables
     ctx.rule("try_index-tables")
@@ -292,8 +295,13 @@ def run(ctx):
             delegates = r[0] == "call" and r[1].endswith("TryInto<U>>::try_into") and r[2] == (("nth", S, 0),)
             if delegates:
                 n_ok += 1
-                f_some = any(c[0] == ("bin", "Eq", ("discr", ("next", S, 0)), ("int", 0, "isize")) and c[1] == 0 for c in firsts)
-                s_none = any((c[0] == ("bin", "Eq", ("discr", ("next", S, 1)), ("int", 0, "isize")) and c[1] == 1) for c in seconds)
+                dec = {}
+                for c in p.conds:
+                    a_, pol_ = natom(c[0], c[1])
+                    if a_[0] == "issome":
+                        dec[a_[1]] = pol_
+                f_some = dec.get(("next", S, 0)) is True
+                s_none = dec.get(("next", S, 1)) is False
                 ctx.check(f_some and s_none, "FromStr:%s:exactly-one-char" % en,
                           "%s::from_str converts a char on a path that did not test `first char present` and `no second char`" % en, loc(b3),
                           sample={"FromStr": en, "accepts": "exactly one char, via the char table"})
@@ -315,8 +323,11 @@ def run(ctx):
         r = p.ret
         if r[0] == "agg" and r[2] == "Ok":
             oks += 1
-            third_none = any(c[0] == ("bin", "Eq", ("discr", ("next", S, 2)), ("int", 1, "isize")) and c[1] == 0 for c in p.conds) or \
-                any(c[0] == ("bin", "Eq", ("discr", ("next", S, 2)), ("int", 0, "isize")) and c[1] == 1 for c in p.conds)
+            third_none = False
+            for c in p.conds:
+                a_, pol_ = natom(c[0], c[1])
+                if a_ == ("issome", ("next", S, 2)) and pol_ is False:
+                    third_none = True
             uses0 = sym.contains(r, lambda x: x == ("next", S, 0))
             uses1 = sym.contains(r, lambda x: x == ("next", S, 1))
             # order: file from char 0 (low bits), rank from char 1 (shifted)
@@ -340,13 +351,17 @@ def run(ctx):
     ctx.check(order == ["file", "rank"], "Square::fmt:order", "Square's Display does not format file then rank: %s" % order, loc(b), sample={"Square::fmt": order})
     # Move::from_str
     mname = "<%s as core::str::traits::FromStr>::from_str" % (T + "chess_move::Move")
-    inner = [k for k in f.bodies if k.startswith(mname + "::") and f.bodies[k].kind == "Fn"]
-    b, ps = rpaths(f, inner[0] if inner else mname)
+    b, ps = rpaths(f, mname, max_inline_blocks=120)
     sptr = ("ptr", ("P", "s"), (), False)
     n_acc = 0
     for p in ps:
         r = p.ret
-        if not (r[0] == "agg" and r[2] == "Some"):
+        # accepted: Ok(move) -- possibly written as Some(move).ok_or(err)
+        if r[0] == "call" and r[1].endswith("::ok_or") and r[2][0][0] == "agg" and r[2][0][2] == "Some":
+            r = r[2][0]
+        elif r[0] == "agg" and r[2] == "Ok":
+            pass
+        else:
             continue
         n_acc += 1
         gets = []
